@@ -64,6 +64,7 @@ def replay(api, pid, path):
     with open(os.path.join(VERIF, path) if not os.path.isabs(path) else path) as f:
         v = json.load(f)
     importlib.import_module(f"contracts.{pid}")
+    api.resolve_depends()
     name = v["obligation"].split(":")[0]
     for hn in api.REGISTRY[pid]["harness"]:
         if hn.name == name and hn.replay is not None:
